@@ -1,24 +1,16 @@
 use autosar_data::*;
-fn build(order: &[&str]) -> String {
-    let model = AutosarModel::new();
-    model.create_file("a.arxml", AutosarVersion::Autosar_00050).unwrap();
-    let conns = model.root_element()
-        .create_sub_element(ElementName::ArPackages).unwrap()
-        .create_named_sub_element(ElementName::ArPackage, "p").unwrap()
-        .create_sub_element(ElementName::Elements).unwrap()
-        .create_named_sub_element(ElementName::CanTpConfig, "c").unwrap()
-        .create_sub_element(ElementName::TpConnections).unwrap();
-    for v in order {
-        let c = conns.create_sub_element(ElementName::CanTpConnection).unwrap();
-        let t = c.create_sub_element(ElementName::TimeoutBr).unwrap();
-        t.set_character_data(v.parse::<f64>().unwrap()).unwrap();
-    }
-    model.sort();
-    conns.sub_elements().map(|c| c.get_sub_element(ElementName::TimeoutBr).unwrap().character_data().unwrap().to_string()).collect::<Vec<_>>().join(",")
-}
 fn main() {
-    println!("{}", build(&["2", "NaN", "1"]));
-    println!("{}", build(&["1", "NaN", "2"]));
-    println!("{}", build(&["NaN", "2", "1"]));
-    println!("{}", build(&["2", "1", "NaN"]));
+    let hdr = "<?xml version=\"1.0\" encoding=\"utf-8\"?>\n<AUTOSAR xsi:schemaLocation=\"http://autosar.org/schema/r4.0 AUTOSAR_00050.xsd\" xmlns=\"http://autosar.org/schema/r4.0\" xmlns:xsi=\"http://www.w3.org/2001/XMLSchema-instance\">";
+    let a = format!("{hdr}<AR-PACKAGES><AR-PACKAGE><SHORT-NAME>p</SHORT-NAME><DESC><L-2 L=\"EN\">x <SUB>a</SUB> y</L-2></DESC></AR-PACKAGE></AR-PACKAGES></AUTOSAR>");
+    let b = format!("{hdr}<AR-PACKAGES><AR-PACKAGE><SHORT-NAME>p</SHORT-NAME><DESC><L-2 L=\"EN\">x <SUP>b</SUP> y</L-2></DESC></AR-PACKAGE></AR-PACKAGES></AUTOSAR>");
+    let m = AutosarModel::new();
+    let (fa, _) = m.load_buffer(a.as_bytes(), "a.arxml", true).unwrap();
+    match m.load_buffer(b.as_bytes(), "b.arxml", true) {
+        Ok((fb, _)) => {
+            println!("merged ok");
+            println!("A: {}", fa.serialize().unwrap().replace('\n', ""));
+            println!("B: {}", fb.serialize().unwrap().replace('\n', ""));
+        }
+        Err(e) => println!("second load: {e}"),
+    }
 }
